@@ -129,7 +129,16 @@ def run(c):
         np.random.seed(c['seed'])
         dss = make_dataset(mdl, theta, arg, n_channel=c['n_ch'], n_sim=c['n_sim'], signal=signal, noise=0, use_exact_signal=True,
                            use_same_signal=c['same'])
-        return dict(n=len(dss), equal=[bool(np.array_equal(dss[0].measurements, x.measurements)) for x in dss[1:]])
+        o = dict(n=len(dss), equal=[bool(np.array_equal(dss[0].measurements, x.measurements)) for x in dss[1:]])
+        if not c['design_matrix'] and len(dss) > 1:
+            # every dataset of the batch carries its own condition vector: sorting one of them in place leaves the others'
+            # descriptors (and their rows) as they were (seeded change C18-m8)
+            before = [(np.asarray(x.obs_descriptors['cond_vec']).tolist(), x.measurements.copy()) for x in dss]
+            dss[0].sort_by('cond_vec')
+            o['siblings_keep_cond_vec'] = all(
+                np.asarray(x.obs_descriptors['cond_vec']).tolist() == b[0] and np.array_equal(x.measurements, b[1])
+                for x, b in zip(dss[1:], before[1:]))
+        return o
     # noise: the same seed with and without noise; the uniform draws recorded
     noise = c['noise4'] / 4
     Lch = None if c['Lch'] is None else np.array(c['Lch'], float) / 2
@@ -189,6 +198,9 @@ def oracle(c, o):
             return 'use_same_signal=False: two simulations have the identical signal'
         if o['n'] != c['n_sim']:
             return 'wrong number of simulated datasets'
+        if o.get('siblings_keep_cond_vec') is False:
+            return ('after sorting the first simulated dataset by condition, another dataset of the batch no longer carries its '
+                    'condition vector (the datasets share one descriptor dictionary)')
         return None
     if c['call'] == 'exact':
         d = np.array(c['d4'], float) / 4
